@@ -459,7 +459,10 @@ def check_types(rep, tier):
     for ci, c in enumerate(cases):
         rep.cov["evaluations"] += 1
         payload = {"case": c}
-        for checked in ([False, True] if c["t"]["c"] in CHOICES else [False]):
+        # the routes by which a value reaches a parameter: attribute assignment (plain / with a checker), constructor
+        # keyword, copyconfig override
+        for route in ([False, True] if c["t"]["c"] in CHOICES else [False]) + ["kw", "copy"]:
+            checked = route is True
             try:
                 H = holder(c["t"], checked)
                 v = pyvalue(c["v"])
@@ -467,8 +470,15 @@ def check_types(rep, tier):
                 rep.machinery_failure(f"cannot build type/value of case {ci}: {ex!r}")
                 continue
             try:
-                o = H()
-                o.x = v
+                if route == "kw":
+                    o = H(x=v)
+                elif route == "copy":
+                    from experimaestro import copyconfig
+
+                    o = copyconfig(H(), x=v)
+                else:
+                    o = H()
+                    o.x = v
                 stored = absvalue(o.__xpm__.values["x"])
                 readback = absvalue(o.x)
                 raised = None
@@ -476,7 +486,7 @@ def check_types(rep, tier):
                 stored = readback = None
                 raised = ex
             want = c["r"]
-            tdesc = json.dumps(c["t"])[:80] + (" with a value checker" if checked else "")
+            tdesc = json.dumps(c["t"])[:80] + (" with a value checker" if checked else "") + {"kw": " (constructor keyword)", "copy": " (copyconfig override)"}.get(route, "")
             if want["k"] == "REJECT":
                 if raised is None:
                     rep.violation(f"C15/accepts/{classify(c['v'], c['t'])}", f"case {ci}: a {c['v']} assigned to a parameter of type {tdesc} is stored as {stored} instead of being rejected", payload)
@@ -492,7 +502,32 @@ def check_types(rep, tier):
     rep.cov["traces_validated_against_impl"] += len(cases)
     rep.cov["distinct_nontrivial"] += nontrivial
     rep.cov["exhaustive"] = True
+    loaded_values(rep)
     missing_required(rep, tier)
+
+
+def loaded_values(rep):
+    """A fourth route: the value comes from a saved definition (written by another version of the program, or edited).
+    It is stored with the declared type, or loading raises"""
+    from experimaestro.core.context import SerializationContext
+    from experimaestro.core.objects import ConfigInformation
+    from xvschema import cfg as S
+
+    base = json.loads(json.dumps(S.K(a=1, f=0.5, s="x", l=[S.K2(a=1)]).__xpm__.__get_objects__([], SerializationContext())))
+    for field, value, ok in (("a", "12", None), ("a", 2.5, None), ("a", 3.0, int), ("f", 2, float), ("f", "x", None), ("s", 7, None),
+                             ("a", [1], None), ("b", "5", None), ("o", "none", None)):
+        rep.cov["evaluations"] += 1
+        defs = json.loads(json.dumps(base))
+        defs[-1]["fields"][field] = value
+        try:
+            o = ConfigInformation.fromParameters(defs, as_instance=False)
+            got = o.__xpm__.values.get(field)
+        except Exception:
+            continue
+        want_type = {"a": int, "b": int, "o": int, "f": float, "s": str}[field]
+        if type(got) is not want_type:
+            rep.violation(f"C15/load/{field}<-{type(value).__name__}", f"a definition file giving {value!r} for the {want_type.__name__} parameter {field} is loaded "
+                          f"and the parameter holds {got!r} ({type(got).__name__})", {"field": field, "value": value})
 
 
 def missing_required(rep, tier):
@@ -520,6 +555,21 @@ def missing_required(rep, tier):
         yield "required parameter of the task itself", lambda: S.T()
         yield "missing in the parameter of a nested holder", lambda: S.T1(x=S.G(z=S.K2()))
 
+        # a rejected submission leaves nothing behind: the same incomplete configuration is rejected again, in the same task
+        # or in another one
+        shared = S.R()
+
+        def again(first):
+            try:
+                first().submit()
+            except Exception:
+                pass
+            return S.T0(x=S.K(a=2, c=shared))
+
+        yield "an incomplete configuration already seen by a rejected submission, in a second task", lambda: again(lambda: S.T0(x=S.K(a=1, c=shared)))
+        shared2 = S.R()
+        yield "an incomplete configuration already validated on its own (validate() raised)", lambda: again(lambda: type("V", (), {"submit": lambda self: shared.__xpm__.validate()})())
+
         def skewed(wrap):
             # saved by the version of the program in which S1 had no parameter w, loaded by the one in which it is required
             from experimaestro.core.context import SerializationContext
@@ -546,6 +596,12 @@ def missing_required(rep, tier):
                     accepted = True
                 except Exception:
                     accepted = False
+                    try:                      # ... and submitting the very same task again is refused again
+                        t.submit()
+                        accepted = True
+                        what = what + " (second submit of the same task)"
+                    except Exception:
+                        pass
                 registered = len(xp.scheduler.jobs)
                 unfinished = xp.unfinishedJobs
             finally:
